@@ -13,9 +13,11 @@ RULE = ("random assignment histories (1-4 types, single keys and lists/tuples/ar
 EXTRA_TRUSTED = ["Model/Density.lean is a hand transcription of Density.__setitem__/Diameter.__setitem__/check"]
 ASSUMPTIONS = ["assigned values are finite positive numbers; type names are those of the type list"]
 NAMES = ['poly', 'B', 'solvent', 'D4']        # not alphabetical, multi-character
+# integer type labels are legal too; the label 0 is falsy, and none of them equals its position
+LABELS = {'names': NAMES, 'ints0': [2, 0, 3, 1], 'ints': [7, 0, 5, 2], 'mixed': ['poly', 0, 'B', 4]}
 def fresh_key(t):
     """an equal but NOT identical str object (keys typed by a user are not the objects stored in the types list)"""
-    return (t + ' ')[:-1]
+    return (t + ' ')[:-1] if isinstance(t, str) else t
 
 def opt(x):
     return 'N' if x is None else f2h(x)
@@ -28,6 +30,8 @@ def obs_dens(d, n, types):
         d.check(); chk = 'true'
     except ValueError:
         chk = 'false'
+    except Exception as e:
+        chk = 'raised-' + type(e).__name__
     return 'rho %s total %s pair %s site %s check %s' % (rho, f2h(d.total), pair, site, chk)
 
 def obs_diam(d, n, types):
@@ -48,11 +52,11 @@ def key_of(ts, types, style):
     if style == 'tuple':
         return tuple(names)
     if style == 'array':
-        return np.array(names)
+        return np.array(names) if all(isinstance(x, str) for x in names) or all(not isinstance(x, str) for x in names) else list(names)
     return list(names)
 
 def suite_history(ctx, case):
-    n = case['n']; types = NAMES[:n]
+    n = case['n']; types = list(LABELS[case.get('labels', 'names')][:n])
     dens = Density(types); diam = Diameter(types)
     if case.get('others'):
         # other containers alive in the same process, with the same labels at OTHER positions (a blend and its pure components ...)
@@ -115,6 +119,8 @@ def suite_history(ctx, case):
                 obj.check(); raised = False
             except ValueError:
                 raised = True
+            except Exception as e:
+                raised = 'a %s instead of ValueError' % type(e).__name__
             if raised != (len(cur) < n): ok = False; why = '%s.check() raised=%s with %d/%d assigned' % (nm, raised, len(cur), n)
         if not same: ok = False; why = 'Diameter[a,b] differs from sigma table'
         ctx.pred('history', sub, ok, 'derived quantity inconsistent after op %d: %s' % (k, why),
@@ -143,7 +149,7 @@ def gen_case(rng, max_ops):
         if prev and c < 0.2: v = prev[-1] * (1 + rng.choice([1e-6, -1e-6, 4e-6, 1e-9, 1e-12])); isint = False
         elif c < 0.3: v = rng.choice([1e-9, 5e-9, 2e-10, 3e-8]) * rng.choice([1.0, 1.7]); isint = False
         ops.append({'kind': kind, 'ts': ts, 'v': v, 'style': style, 'int': isint})
-    return {'n': n, 'ops': ops, 'others': rng.random() < 0.4}
+    return {'n': n, 'ops': ops, 'others': rng.random() < 0.4, 'labels': rng.choice(['names', 'names', 'ints0', 'ints', 'mixed'])}
 
 def generate(ctx):
     N = ctx.n(400, 6000)
